@@ -15,13 +15,15 @@ def load_pool(kind):
     return json.load(open(p))["good"]
 
 
-def run(prop, tier, seed, plan, assumptions, rule, mc=None, nontrivial_key="statements", level="model_checking", extra=None, post=None):
+def run(prop, tier, seed, plan, assumptions, rule, mc=None, nontrivial_key="statements", level="model_checking", extra=None, post=None, pre=None):
     """plan: list of (kind, quick_segments, thorough_segments)"""
     c = Check(prop, tier, seed, level)
     wd = vlib.workdir(prop.lower())
     c.assumptions = assumptions
     if mc:
         dbcheck.model_check_txn(c, tier, mc[0] if tier == "quick" else mc[1])
+    if pre:
+        pre(c, tier)
     for kind, q, t in plan:
         n = q if tier == "quick" else t
         per = SEG.get(kind, 6)
